@@ -38,6 +38,13 @@ def par_cfg(fixed, space, p):
     return "SPECIFICATION Spec\nCONSTANTS\n  Fixed = {%s}\n  ParSpace <- %s\n  P = %d\n" % (", ".join('"%s"' % f for f in fixed), space, p)
 
 
+PARREQ_INVS = "INVARIANTS ParReqFaithful IsolatedReq\n"
+
+
+def parreq_cfg(fixed, p):
+    return "SPECIFICATION Spec\nCONSTANTS\n  Fixed = {%s}\n  ParReqSpace <- ParReqScn\n  P = %d\n" % (", ".join('"%s"' % f for f in fixed), p)
+
+
 def run(ctx):
     ctx.cov["rule"] = ("scenario = one element of the request-direction or response-direction toggle product of specs/ProxyMsgDefs.tla "
                        "(enumerated by TLC); evaluation = one real exchange (raw client -> mux.ServeHTTP -> Pipeline[RequestAdaptor? Proxy "
@@ -52,7 +59,8 @@ def run(ctx):
                        "cache | backend breaks off | gzip bodies of several members | in flight at the same time; TLC first enumerates the scenarios, then "
                        "computes the vector (features, predicted outcome) of those drawn; "
                        "trace = the same recorded exchange; non-trivial = distinct (request scenario class, response scenario, cache hit) "
-                       "triples that exercise a non-default toggle")
+                       "triples that exercise a non-default toggle; 1 case in 24 is a warm-up followed by 1-2 requests (bodies of their own, same framing and "
+                       "length) that are taken in by the mux and held in front of the pipeline while 2-4 later ones run to completion (ProxyMsgParReq.tla)")
     ctx.assumptions += [
         "path 'unchanged' = identical after percent-decoding (raw query: byte-identical); see ProxyMsgDefs.tla",
         "hop-by-hop 'removed' = no header of that name carrying one of the client's values reaches the backend; the client's own "
@@ -84,6 +92,10 @@ def run(ctx):
             r = ctx.tlc_mc("ProxyMsgPar", par_cfg(ALL + ["GZOWN"], space, p) + PAR_INVS, timeout=1500,
                            label="warm-up + %d exchanges in flight at the same time (%s): each faithful and answered as if alone" % (p, space))
             ctx.log("overlapping exchanges model checked: %d distinct states in %.0fs" % (r.distinct, r.wall))
+        # the way in: requests with bodies of their own taken in and held in flight while later ones run to completion
+        r = ctx.tlc_mc("ProxyMsgParReq", parreq_cfg(ALL + ["RBUFOWN"], 3 if ctx.quick else 4) + PARREQ_INVS, timeout=900,
+                       label="warm-up + overlapping requests with bodies of their own: each backend receives its client's body")
+        ctx.log("overlapping requests model checked: %d distinct states in %.0fs" % (r.distinct, r.wall))
     if ctx.phase("lead") and not ctx.quick:
         _leads(ctx)
     if ctx.phase("mbt"):
@@ -102,7 +114,11 @@ def _leads(ctx):
                    label="lead: one gzip compressor shared by the exchanges in flight", timeout=900)
     if r.violated != "ParFaithful":
         ctx.inconclusive("the model with a compressor shared between overlapping exchanges does not violate the contract (vacuous model?):\n%s" % r.out[-1500:])
-    ctx.log("leads: TLC finds a contract violation for each of %s when it is left in the model" % (ALL + ["GZOWN"]))
+    r = ctx.tlc_mc("ProxyMsgParReq", parreq_cfg(ALL, 3) + "INVARIANTS ParReqFaithful\n", expect_ok=False, count=False,
+                   label="lead: bodies of unknown length read into a buffer shared through a free list", timeout=900)
+    if r.violated != "ParReqFaithful":
+        ctx.inconclusive("the model with a request buffer shared between overlapping exchanges does not violate the contract (vacuous model?):\n%s" % r.out[-1500:])
+    ctx.log("leads: TLC finds a contract violation for each of %s when it is left in the model" % (ALL + ["GZOWN", "RBUFOWN"]))
 
 
 def _pair(ctx, vecs, vector_of):
@@ -126,6 +142,8 @@ def _pair(ctx, vecs, vector_of):
               "short": [v for v in resps if v["s"]["short"]],
               # gzip bodies made of several members
               "multi": [v for v in resps if v["s"]["bmem"] > 1],
+              # requests held in flight (see below): a backend is asked every time, the request has a body
+              "hold": [v for v in resps if v["parOk"] and not v["s"]["head"] and not v["s"]["cache"]],
               # run with several exchanges in flight at the same time: scenarios in which a body travels (what can overlap are bodies
               # under way), two thirds of them without a memory cache (a hit asks no backend)
               "par": [v for j, v in enumerate(v for v in resps if v["parOk"] and not v["s"]["head"] and v["s"]["bsize"] > 0)
@@ -139,6 +157,12 @@ def _pair(ctx, vecs, vector_of):
         ctx.inconclusive("vector generation produced no scenario for one of the strata %s %s" % (sorted(strata), sorted(rstrata)))
     n = 1200 if ctx.quick else 12000
     bodyless = [v for v in reqs if v["s"]["rbody"] == "none"]
+    # requests HELD in flight: after a warm-up, 1-2 requests (bodies of their own) are taken in by the mux and parked in front of the
+    # pipeline while 2-4 later ones with the same framing and length run to completion; buffered requests with a body, never retried
+    holdreqs = [v for v in reqs if v["s"]["rbody"] != "none" and v["s"]["fails"] == 0 and v["s"]["reqMode"] == "buf"]
+    if not holdreqs:
+        ctx.inconclusive("vector generation produced no request scenario for the held schedule")
+    taken_hold = 0
     drawn = []
     taken = {k: 0 for k in list(strata) + list(rstrata)}
     for i in range(n):
@@ -148,11 +172,18 @@ def _pair(ctx, vecs, vector_of):
         rst = ("main", "lb", "main", "target", "main", "main")[i % 6]
         rv = rstrata[rst][taken[rst] % len(rstrata[rst])]
         taken[rst] += 1
+        if i % 24 == 2:
+            st = "hold"
+            pv = strata[st][taken[st] % len(strata[st])]
+            taken[st] += 1
+            rv = holdreqs[taken_hold % len(holdreqs)]
+            taken_hold += 1
         if st == "par" and nofail:
             rv = nofail[i % len(nofail)]
         if pv["s"]["head"] and rv["s"]["rbody"] != "none":
             rv = bodyless[i % len(bodyless)]
         drawn.append((i, st, rv, pv))
+    nhold = 0
     full = vector_of([x[2] for x in drawn] + [x[3] for x in drawn])
     cases = []
     for i, st, rv, pv in drawn:
@@ -168,7 +199,10 @@ def _pair(ctx, vecs, vector_of):
                 "ctype": ctypes[(i + ctx.seed) % len(ctypes)], "rctype": ctypes[(i // len(ctypes) + ctx.seed) % len(ctypes)], "par": 0}
         # exchanges in flight at the same time (a warm-up, then `par` overlapping ones): the par stratum, and a share of the others
         # (bodiless and empty responses, more cache sequences)
-        if pv["parOk"] and rv["s"]["fails"] == 0 and (st == "par" or i % 24 in (2, 5)):
+        if st == "hold":
+            case["hold"], case["later"] = 1 + nhold % 2, degrees[(nhold // 2 + ctx.seed) % len(degrees)]
+            nhold += 1
+        elif pv["parOk"] and rv["s"]["fails"] == 0 and (st == "par" or i % 24 in (2, 5)):
             case["par"] = degrees[(i // 12 + ctx.seed) % len(degrees)]
         cases.append(case)
     return cases
@@ -266,13 +300,18 @@ def _mbt(ctx):
         ctx.inconclusive("only %d overlapping exchanges (%d of them compressed by the proxy) and %d media types were exercised" % (
             len(over), len(overgz), len(seen_ct)))
     ctx.log("%d exchanges in flight at the same time as others (%d compressed by the proxy); media types %s" % (len(over), len(overgz), sorted(seen_ct)))
+    # ... requests held in flight whose body of unknown length (chunked) was buffered by the mux, and the declared-length control
+    held = {fr: sum(1 for e in events if e.get("sched") == "held" and by_id[e["case"]]["req"]["s"]["rbody"] == fr and e["bs"]) for fr in ("chunked", "cl")}
+    if min(held.values()) < 5 and not crashed:
+        ctx.inconclusive("only %s requests were held in flight while later ones completed" % held)
+    ctx.log("requests held in flight while later ones ran to completion: %s" % pm.jdump(held))
     verdicts = pm.evaluate(ctx, "ProxyMsg_Trace", events, "c03_trace")
     ctx.evals(len(events))
     ctx.traces(len(events))
     for e in events:
         c = by_id[e["case"]]
         ctx.nontrivial({"r": {k: v for k, v in c["req"]["s"].items() if k not in ("path", "query")}, "pc": c["req"]["pathcls"], "p": c["resp"]["s"],
-                        "hit": e["cfg"]["mayHit"] and not e["bs"], "ct": c["ctype"], "par": c["par"] if e["k"] > 1 else 0})
+                        "hit": e["cfg"]["mayHit"] and not e["bs"], "ct": c["ctype"], "par": c["par"] if e["k"] > 1 else 0, "sched": e.get("sched") or ""})
     for e in events[:3]:
         ctx.sample({"kind": "exchange", "client_target": e["c"].get("targetText"),
                     "backend_targets": [b.get("targetText") for b in e["bs"]],
@@ -291,6 +330,12 @@ def _mbt(ctx):
         for clause in _primary(viol):
             what = _describe(clause, c, e)
             sig = _sig(c, clause, e["k"])
+            if clause in REQ_CLAUSES and c.get("hold"):
+                # "held": taken in by the mux, then parked while later requests ran to completion; "while-held": one of those later ones
+                sig["schedule"] = e.get("sched") or "alone"
+                what = {"held": "request taken in by the mux and held in front of the pipeline while %d later requests with bodies of their own ran to "
+                                "completion: " % c["later"],
+                        "while-held": "request that ran to completion while %d earlier ones were held in flight: " % c["hold"]}.get(e.get("sched"), "") + what
             if clause == "truncated":      # what the client was given: nothing at all, or a body with / without a gzip label
                 sig["clientBody"] = "empty" if e["cr"]["got"] == 0 else (e["cr"]["body"]["label"] or "plain")
             if c["resp"]["s"]["cache"]:
